@@ -30,6 +30,22 @@ def child_prog(target, summary, nested=False):
     return {"name": f"child[{target - LIMIT:+d};summary={summary};nested={nested}]", "meta": meta, "seq": seq + TAIL}
 
 
+def wide_child_prog(summary):
+    """100 000 three-byte characters: 300 KB in UTF-8 however the serializer escapes them."""
+    body = [{"k": "step", "fn": {"ret": "s1"}}, {"k": "step", "fn": {"ret": "s2"}}]
+    op = {"k": "child", "body": body, "big": 100_000, "big_char": "\u4e2d"}
+    if summary:
+        op["summary"] = True
+    return {"name": f"child[100000 CJK chars;summary={summary}]", "meta": {"ctx": [[1], 300_000, summary]}, "seq": [op] + TAIL}
+
+
+def wide_par_prog(kind):
+    body = [{"k": "step", "fn": {"bytes": 50_000, "char": "\u4e2d"}}]
+    cfg = {"cc": "all_completed", "summary": "custom"}
+    op = {"k": "par", "branches": [body, body], "cfg": cfg} if kind == "par" else {"k": "map", "items": [1, 2], "body": body, "cfg": cfg}
+    return {"name": f"{kind}[2x50000 CJK chars;summary=custom]", "meta": {"batch": [[1], 150_000, "custom"]}, "seq": [op] + TAIL}
+
+
 def par_prog(kind, n_each, summary, parent_big=True, no_config=False):
     """Two branches each returning a string of n_each bytes from a step."""
     body = [{"k": "step", "fn": {"bytes": n_each}}]
@@ -76,6 +92,10 @@ def programs(tier):
             out.append(child_prog(target, summary))
     out.append(child_prog(LIMIT + 1, False, nested=True))
     out.append(child_prog(300_000, True, nested=True))
+    out.append(wide_child_prog(False))
+    out.append(wide_child_prog(True))
+    out.append(wide_par_prog("par"))
+    out.append(wide_par_prog("map"))
     for kind in ("par", "map"):
         for summary in (None, "custom", "default"):
             out.append(par_prog(kind, 140_000, summary))      # branches fit, the batch result does not
@@ -103,10 +123,10 @@ def judge(d, _=None):
             continue
         u = r["u"]
         if u["Type"] == "CONTEXT" and u["Action"] == "SUCCEED":
-            n = len(u.get("Payload") or "")
+            n = len((u.get("Payload") or "").encode("utf-8", "surrogatepass"))
             if n > LIMIT:
                 V(out, "C16", "checkpoint-payload-above-limit",
-                  f"{d.program['name']}: CONTEXT SUCCEED for {fmt_path(r['path'])} carries {n} characters (> {LIMIT})")
+                  f"{d.program['name']}: CONTEXT SUCCEED for {fmt_path(r['path'])} carries {n} bytes (> {LIMIT})")
     if "ctx" in meta:
         path, target, summary = tuple(meta["ctx"][0]), meta["ctx"][1], meta["ctx"][2]
         succ = [r for r in be.log if r["path"] == path and not r.get("external") and r["u"]["Action"] == "SUCCEED"]
